@@ -647,8 +647,100 @@ func streamOptions(ctx *Ctx) *Result {
 		}
 		return outcome{out.String(), log.String(), fmt.Sprintf("err=%q blocks=%s binding=%s", e, fmtBlocks(res1), fmtBinding(b1))}
 	}
+	// Parse and Execute called separately, each with its own writers: what the program prints and
+	// what the options add must stay with the writer it belongs to, whatever the options
+	type split struct{ pa, pl, xa, xl, rest string }
+	stripOpt := func(s string) string {
+		var b strings.Builder
+		for _, l := range strings.SplitAfter(s, "\n") {
+			if l != "" && !reOptLine.MatchString(l) {
+				b.WriteString(l)
+			}
+		}
+		return b.String()
+	}
+	runSplit := func(src []byte, dis, tr, st bool) split {
+		var pa, pl, xa, xl capBuf
+		prog, err := bcl.Parse(src, "input", bcl.OptOutput(&pa), bcl.OptLogger(&pl), bcl.OptDisasm(dis), bcl.OptStats(st))
+		if err != nil {
+			return split{stripOpt(pa.String()), pl.String(), "", "", "parse error"}
+		}
+		res1, b1, err := bcl.Execute(prog, bcl.OptOutput(&xa), bcl.OptLogger(&xl), bcl.OptTrace(tr), bcl.OptStats(st))
+		e := "-"
+		if err != nil {
+			e = err.Error()
+		}
+		return split{stripOpt(pa.String()), pl.String(), stripOpt(xa.String()), xl.String(),
+			fmt.Sprintf("err=%q blocks=%s binding=%s", e, fmtBlocks(res1), fmtBinding(b1))}
+	}
+	// the instruction boundaries of compiled code, decoded independently of the library's disassembler
+	boundaries := func(code []byte) []int {
+		var offs []int
+		uvLen := func(b byte) int {
+			switch {
+			case b <= 240:
+				return 1
+			case b <= 248:
+				return 2
+			}
+			return int(b) - 246
+		}
+		for pc := 0; pc < len(code); {
+			offs = append(offs, pc)
+			name := bcl.VerifOpcodeName(code[pc])
+			pc++
+			switch name {
+			case "CONST", "GETLOCAL", "SETLOCAL", "GETFIELD", "SETFIELD", "POPN":
+				if pc < len(code) {
+					pc += uvLen(code[pc])
+				}
+			case "DEFBLOCK":
+				for k := 0; k < 2 && pc < len(code); k++ {
+					pc += uvLen(code[pc])
+				}
+			case "JUMP", "JFALSE", "LOOP":
+				pc += 2
+			case "BIND":
+				if pc < len(code) {
+					pc += uvLen(code[pc])
+				}
+				pc++
+			}
+		}
+		return offs
+	}
 	checkOne := func(i int, d *Driver, src []byte, withModel bool) {
 		v := guarded(opTimeout, func() string {
+			// (a) separate calls, separate writers
+			sp := runSplit(src, false, false, false)
+			for m := 1; m < 8; m++ {
+				o := runSplit(src, m&1 != 0, m&2 != 0, m&4 != 0)
+				if o != sp {
+					return fmt.Sprintf("FAIL options %03b with Parse and Execute given separate writers: program text per writer and results changed:\n with: %+v\n plain: %+v", m, o, sp)
+				}
+			}
+			// (b) the disassembly lists each instruction exactly once at its offset
+			{
+				var out, log capBuf
+				if prog, err := bcl.Parse(src, "input", bcl.OptOutput(&out), bcl.OptLogger(&log), bcl.OptDisasm(true)); err == nil {
+					_, code, _, _, _ := bcl.VerifProgParts(prog)
+					want := boundaries(code)
+					var got []int
+					for _, l := range strings.Split(out.String(), "\n") {
+						k := 0
+						for k < len(l) && l[k] >= '0' && l[k] <= '9' {
+							k++
+						}
+						if k >= 4 && k < len(l) && l[k] == ' ' {
+							off, _ := strconv.Atoi(l[:k])
+							got = append(got, off)
+						}
+					}
+					if fmt.Sprint(got) != fmt.Sprint(want) {
+						return fmt.Sprintf("FAIL disassembly lists offsets %v; the instructions of the compiled program start at %v", got, want)
+					}
+				}
+			}
 			plain := runOpts(src, false, false, false)
 			plainLines := strings.SplitAfter(plain.out, "\n")
 			for m := 1; m < 8; m++ {
